@@ -417,9 +417,9 @@ def run_c14_e2e(res, tier, seed, prop="C14"):
             lib = (f"// {noise(rng.randrange(0, 40))}\n" * rng.randrange(0, 4) +
                    f"pub const k = \"{noise(rng.randrange(0, 12))}\" pub fn target() {{ \"{noise(rng.randrange(0, 9))}\" }}\n" +
                    f"// {noise(rng.randrange(0, 60))}\n" * rng.randrange(0, 3) +
-                   f"pub fn other() {{ #(\"{noise(rng.randrange(0, 9))}\", target(), \"{noise(3)}\", target()) }}\n")
+                   f"pub fn other() {{ #(\"{noise(rng.randrange(0, 9))}\",target(), \"{noise(3)}\",target()) }}\n")
             main = (f"import lib\n" + f"// {noise(rng.randrange(0, 30))}\n" * rng.randrange(0, 3) +
-                    f"pub fn main() {{ #(\"{noise(rng.randrange(0, 15))}\", lib.target(), \"{noise(2)}\", lib.target()) }}\n")
+                    f"pub fn main() {{ #(\"{noise(rng.randrange(0, 15))}\",lib.target(), \"{noise(2)}\",lib.target()) }}\n")
             third = f"import lib\npub fn third() {{ lib.target() }}\n// {noise(8)}\n"
             texts = {"lib": lib, "main": main, "third": third}
             for n, t in texts.items():
@@ -448,38 +448,67 @@ def run_c14_e2e(res, tier, seed, prop="C14"):
                     col = sum(width(ch, enc) for ch in t[t.rfind("\n", 0, i) + 1:i])
                     return {"line": line, "character": col}
                 asks = [("main", "lib.target", 0, 4), ("main", "lib.target", 1, 4), ("lib", "fn target", 0, 3), ("lib", "target()", 1, 0), ("third", "lib.target", 0, 4)]
-                for (n, needle, nth, delta) in asks:
-                    p = {"textDocument": {"uri": uri[n]}, "position": pos_of(n, needle, nth, delta)}
-                    got = []        # (what, uri, range)
-                    r = c.request("textDocument/definition", p, timeout=30)
-                    for loc in ((r or {}).get("result") or []) if isinstance((r or {}).get("result"), list) else ([r["result"]] if (r or {}).get("result") else []):
-                        got.append(("definition", loc.get("uri") or loc.get("targetUri"), loc.get("range") or loc.get("targetSelectionRange")))
-                    r = c.request("textDocument/references", dict(p, context={"includeDeclaration": True}), timeout=30)
-                    for loc in ((r or {}).get("result") or []):
-                        got.append(("references", loc["uri"], loc["range"]))
-                    r = c.request("textDocument/documentHighlight", p, timeout=30)
-                    for h in ((r or {}).get("result") or []):
-                        got.append(("documentHighlight", uri[n], h["range"]))
-                    r = c.request("textDocument/prepareRename", p, timeout=30)
-                    pr = (r or {}).get("result")
-                    if isinstance(pr, dict):
-                        got.append(("prepareRename", uri[n], pr.get("range") or pr))
-                    r = c.request("textDocument/rename", dict(p, newName="zq9"), timeout=30)
-                    for u, edits in (((r or {}).get("result") or {}).get("changes") or {}).items():
-                        for e in edits:
-                            got.append(("rename", u, e["range"]))
-                    res.cov["evaluations"] += len(got)
-                    for (what, u, rg) in got:
-                        name = byuri.get(u) or byuri.get("file://" + os.path.normpath(u[7:]))
-                        if name is None or not isinstance(rg, dict) or "start" not in rg:
-                            continue
-                        sel = client_slice(texts[name], rg, enc)
-                        if sel != "target":
-                            res.add_violation(prop + "/server-range-selects-other-text",
-                                              f"{what} asked in {n}.gleam: the range {rg['start']['line']}:{rg['start']['character']}-{rg['end']['line']}:{rg['end']['character']} "
-                                              f"in {name}.gleam selects {sel!r} in the editor's copy (columns counted in {enc}), not `target`",
-                                              {"texts": texts, "asked_in": n, "position": p["position"], "request": what, "answer_uri": u, "answer_range": rg})
-                            break
+                version = [1]
+                def type_edit(n, needle, delta, ins="", delete=0):
+                    """one keystroke in the editor: insert `ins` / delete `delete` characters at needle+delta; the server is told
+                    by an incremental didChange and the editor's copy changes the same way"""
+                    t = texts[n]
+                    i = t.index(needle) + delta
+                    line = t.count("\n", 0, i)
+                    ls = t.rfind("\n", 0, i) + 1
+                    col = sum(width(ch, enc) for ch in t[ls:i])
+                    cole = col + sum(width(ch, enc) for ch in t[i:i + delete])
+                    version[0] += 1
+                    c.notify("textDocument/didChange", {"textDocument": {"uri": uri[n], "version": version[0]},
+                             "contentChanges": [{"range": {"start": {"line": line, "character": col}, "end": {"line": line, "character": cole}}, "text": ins}]})
+                    texts[n] = t[:i] + ins + t[i + delete:]
+                def ask_all(stage):
+                    for (n, needle, nth, delta) in asks:
+                        p = {"textDocument": {"uri": uri[n]}, "position": pos_of(n, needle, nth, delta)}
+                        got = []        # (what, uri, range)
+                        r = c.request("textDocument/definition", p, timeout=30)
+                        for loc in ((r or {}).get("result") or []) if isinstance((r or {}).get("result"), list) else ([r["result"]] if (r or {}).get("result") else []):
+                            got.append(("definition", loc.get("uri") or loc.get("targetUri"), loc.get("range") or loc.get("targetSelectionRange")))
+                        r = c.request("textDocument/references", dict(p, context={"includeDeclaration": True}), timeout=30)
+                        for loc in ((r or {}).get("result") or []):
+                            got.append(("references", loc["uri"], loc["range"]))
+                        r = c.request("textDocument/documentHighlight", p, timeout=30)
+                        for h in ((r or {}).get("result") or []):
+                            got.append(("documentHighlight", uri[n], h["range"]))
+                        r = c.request("textDocument/prepareRename", p, timeout=30)
+                        pr = (r or {}).get("result")
+                        if isinstance(pr, dict):
+                            got.append(("prepareRename", uri[n], pr.get("range") or pr))
+                        r = c.request("textDocument/rename", dict(p, newName="zq9"), timeout=30)
+                        for u, edits in (((r or {}).get("result") or {}).get("changes") or {}).items():
+                            for e in edits:
+                                got.append(("rename", u, e["range"]))
+                        res.cov["evaluations"] += len(got)
+                        for (what, u, rg) in got:
+                            name = byuri.get(u) or byuri.get("file://" + os.path.normpath(u[7:]))
+                            if name is None or not isinstance(rg, dict) or "start" not in rg:
+                                continue
+                            sel = client_slice(texts[name], rg, enc)
+                            if sel != "target":
+                                res.add_violation(prop + "/server-range-selects-other-text",
+                                                  f"{what} asked in {n}.gleam: the range {rg['start']['line']}:{rg['start']['character']}-{rg['end']['line']}:{rg['end']['character']} "
+                                                  f"in {name}.gleam selects {sel!r} in the editor's copy (columns counted in {enc}), not `target`",
+                                                  {"texts": texts, "asked_in": n, "position": p["position"], "request": what, "answer_uri": u, "answer_range": rg})
+                                break
+                ask_all("opened")
+                # typing inside lines that carry wide characters further right, keystroke by keystroke, then deleting again:
+                # the line tables the server keeps after incremental edits must still be the editor's
+                typed = "abcdefghijkl"
+                for j, ch in enumerate(typed):
+                    type_edit("main", "pub fn main", len("pub fn main") + j, ins=ch)
+                    type_edit("lib", "pub const k", len("pub const k") + j, ins=ch)
+                    type_edit("lib", "pub fn other", len("pub fn other") + j, ins=ch)
+                ask_all("typed")
+                for _ in range(3):
+                    type_edit("main", "pub fn main", len("pub fn main"), delete=1)
+                    type_edit("lib", "pub const k", len("pub const k"), delete=1)
+                    type_edit("lib", "pub fn other", len("pub fn other"), delete=1)
+                ask_all("deleted")
             finally:
                 c.close()
     finally:
